@@ -31,6 +31,9 @@ verus! {
 //@include spec/names.rs
 //@include spec/plain.rs
 //@include spec/indep.rs
+//@include spec/subst.rs
+//@include spec/rewrites.rs
+//@include spec/colour.rs
 //@fmtfns
 
 //@assume eval_node
